@@ -25,6 +25,8 @@ CLAUSE = {
     "Q": ".IN_SEQUENCE(s)",
     "Q2": ".IN_SEQUENCE(s, s2)",
     "TH": ".THROW(1)",
+    "RET0": ".RETURN()",
+    "LRET0": ".LR_RETURN()",
     "LTH": ".LR_THROW(g)",
 }
 RETURN = {"I": ".RETURN(_1)", "R": ".RETURN(_1)", "V": ".RETURN(1)"}
@@ -106,6 +108,8 @@ def illegal_insertions(chain, sig):
         if sig == "V":
             if "TH" not in has:
                 yield ins(pos, "RET"), r"RETURN does not make sense for void-function", "RETURN on void"
+                yield ins(pos, "RET0"), r"RETURN does not make sense for void-function", "empty RETURN on void"
+                yield ins(pos, "LRET0"), r"RETURN does not make sense for void-function", "empty LR_RETURN on void"
         else:
             if "RET" in has:
                 yield ins(pos, "RET"), r"Multiple RETURN does not make sense", "second RETURN"
